@@ -1,5 +1,6 @@
 import NauyacaVerif.Srv.ConnMore
 import NauyacaVerif.Srv.PumpProof
+import NauyacaVerif.Srv.FlowProof
 import NauyacaVerif.Gen.Params
 
 /-! # C15  Silent peers are always disconnected within the timeout
@@ -40,6 +41,21 @@ theorem tick_noop_after_complete (cfg : Cfg) (s : St) (dt : Nat) (h : s.timer = 
 /-- the timer is armed once and never re-armed: no slow-loris extension by trickling bytes -/
 theorem never_rearmed (cfg : Cfg) (s : St) (e : Ev) (h : (step cfg s e).timer = true) : s.timer = true :=
   step_timer_mono cfg s e h
+
+/-- the other direction, on the model of the write pump (M-Flow, which carries the same timer): once the request is
+    decided and a response is being written, no amount of time changes anything -- trace, state, pending pieces -- however
+    long the transport keeps writing paused.  A peer that sent a complete request and takes its (large) answer slowly is
+    not cut off by the request timer. -/
+theorem flow_tick_after_send (evs : List Flow.FEv) (dt : Nat) (hs : (Flow.frun evs).started = true) :
+    Flow.frun (evs ++ [.tick dt]) = Flow.frun evs := Flow.tick_after_send evs dt hs
+
+/-- ... and when nothing was decided by the deadline the timeout response goes through the same pump -/
+theorem flow_tick_fires (s : Flow.FSt) (dt r : Nat) (ht : s.timer = some r) (hd : r ≤ dt) (hs : s.started = false) (hl : s.lost = false) :
+    Flow.fstep s (.tick dt) = Flow.pump { s with started := true, unsent := Flow.timeoutPieces, all := Flow.timeoutPieces, timer := none } :=
+  Flow.tick_fires s dt r ht hd hs hl
+
+example : (Flow.frun [.limit 0, .send [[1], [2]], .tick 100000]).out = [.write [1]] := by decide
+example : (Flow.frun [.tick 240]).closed = true := by decide
 
 /-- non-vacuity: a peer that sends half a line and stalls is answered 40 at the deadline -/
 example : (run { mw := false, upload := false, handler := .async, env := asciiEnv }
